@@ -333,6 +333,7 @@ func runC04(c *Ctx) {
 	var tickers []*zapcore.BufferedWriteSyncer
 	bufSize := 0
 	unjudged := map[*zsim.SimSink]bool{}
+	var switchOn []func()
 	for b := 0; b < nBranch; b++ {
 		br := &c04branch{level: stdLevels[g.Weighted(4, 2, 2, 1)], console: g.Chance(4), kind: g.Draw(7), shares: -1}
 		if br.kind == 5 || br.kind == 6 {
@@ -408,7 +409,18 @@ func runC04(c *Ctx) {
 			unjudged[s] = true
 			c.Fault("member-short-count-without-error")
 		}
-		br.core = zapcore.NewCore(newEncoderCaller(br.console, withCaller), br.ws, br.level)
+		var enab zapcore.LevelEnabler = br.level
+		if g.Chance(6) {
+			// a branch behind a switch: its level is dynamic and enables nothing
+			// while the cores, tees and loggers are put together; it is switched
+			// on before the first entry is logged
+			al := zap.NewAtomicLevelAt(zapcore.InvalidLevel)
+			lvl := br.level
+			enab = al
+			switchOn = append(switchOn, func() { al.SetLevel(lvl) })
+			r.Probe("branch whose level is switched on after construction")
+		}
+		br.core = zapcore.NewCore(newEncoderCaller(br.console, withCaller), br.ws, enab)
 		br.refBuf = &bytes.Buffer{}
 		br.refCore = zapcore.NewCore(newEncoderCaller(br.console, withCaller), zapcore.AddSync(br.refBuf), br.level)
 		branches = append(branches, br)
@@ -537,6 +549,9 @@ func runC04(c *Ctx) {
 		c.Describe("%s", b.String())
 	}
 
+	for _, f := range switchOn {
+		f() // everything is built (also the derived loggers of shared mode): the switches go on
+	}
 	// ---- tasks ----
 	sharedTL := map[int]*taskLogger{}
 	if shared {
